@@ -405,3 +405,253 @@ func init() {
 		return s.genPlain(rng, func() *Config { cfg := c.Cfg; return &cfg })
 	}
 }
+
+// restartCfgFn returns a function drawing an independent reader configuration for restarts.
+func restartCfgFn(c *Case, rng *vrt.Rand, small bool, independent float64) func() *Config {
+	return func() *Config {
+		if rng.Chance(independent) {
+			cfg := genConfig(rng, small)
+			return &cfg
+		}
+		cfg := c.Cfg
+		return &cfg
+	}
+}
+
+func init() {
+	// C02: clean restart preserves the mapping, any writer/reader configuration pair, any end offset
+	generators["C02"] = func(c *Case, rng *vrt.Rand, tier string) func(r *Runner, i int) *Op {
+		c.Arm = "seq"
+		small := rng.Chance(0.5)
+		c.Cfg = genConfig(rng, small)
+		s := newSwarm(rng, []string{"put", "del", "get", "sync", "merge", "restart", "batch"}, 40)
+		s.W["put"] += 5
+		s.W["restart"] += 3
+		s.ValW[4] += 4 // boundary-aimed lengths: the file ends at every distance from a block boundary
+		inner := s.genPlain(rng, restartCfgFn(c, rng, small, 0.7))
+		lastRestart := false
+		return func(r *Runner, i int) *Op {
+			op := inner(r, i)
+			if op == nil {
+				return nil
+			}
+			// two restarts in a row, restart right after merge / batch / oversized record
+			if !lastRestart && i > 0 && rng.Chance(0.15) {
+				op = &Op{K: "restart", Cfg: restartCfgFn(c, rng, small, 0.7)(), Dt: s.dt(rng)}
+			}
+			lastRestart = op.K == "restart"
+			return op
+		}
+	}
+	// C05: batch staging semantics
+	generators["C05"] = func(c *Case, rng *vrt.Rand, tier string) func(r *Runner, i int) *Op {
+		c.Arm = "seq"
+		c.Cfg = genConfig(rng, rng.Chance(0.8))
+		s := newSwarm(rng, []string{"put", "del", "batch"}, 30)
+		s.W["put"] += 3
+		s.W["batch"] += 6
+		s.ValW[5] = 0
+		prev := (*Op)(nil)
+		return func(r *Runner, i int) *Op {
+			if prev != nil {
+				s.learn(r, prev)
+			}
+			if i >= s.Steps {
+				return nil
+			}
+			var op *Op
+			kinds := []string{"put", "del", "batch", "restart", "merge"}
+			switch kinds[rng.Pick([]int{s.W["put"], s.W["del"], s.W["batch"], 1, 1})] {
+			case "put":
+				k := s.key(rng)
+				op = &Op{K: "put", Key: k, Val: s.val(rng, r, len(k))}
+			case "del":
+				op = &Op{K: "del", Key: s.key(rng)}
+			case "restart":
+				cfg := c.Cfg
+				op = &Op{K: "restart", Cfg: &cfg}
+			case "merge":
+				op = &Op{K: "merge"}
+			default:
+				op = &Op{K: "batch", Flag: rng.Chance(0.2)}
+				n := rng.Range(1, 16)
+				for j := 0; j < n; j++ {
+					k := s.key(rng)
+					switch x := rng.Intn(10); {
+					case x < 4:
+						op.Sub = append(op.Sub, Op{K: "bput", Key: k, Val: s.val(rng, r, len(k))})
+					case x < 6:
+						op.Sub = append(op.Sub, Op{K: "bdel", Key: k})
+					default:
+						op.Sub = append(op.Sub, Op{K: "bget", Key: k})
+					}
+					if rng.Chance(0.3) { // read back right after the write
+						op.Sub = append(op.Sub, Op{K: "bget", Key: k})
+					}
+				}
+				if rng.Chance(0.02) {
+					op.Sub = append(op.Sub, Op{K: "bput", Key: nil, Val: &Val{Len: 1, Tag: s.nextTag()}})
+				}
+				op.Sub = append(op.Sub, Op{K: "commit"})
+				if rng.Chance(0.3) { // use after commit
+					for j := 0; j < rng.Range(1, 3); j++ {
+						k := s.key(rng)
+						switch rng.Intn(4) {
+						case 0:
+							op.Sub = append(op.Sub, Op{K: "bput", Key: k, Val: s.val(rng, r, len(k))})
+						case 1:
+							op.Sub = append(op.Sub, Op{K: "bdel", Key: k})
+						case 2:
+							op.Sub = append(op.Sub, Op{K: "bget", Key: k})
+						default:
+							op.Sub = append(op.Sub, Op{K: "commit"})
+						}
+					}
+				}
+			}
+			op.Dt = s.dt(rng)
+			prev = op
+			return op
+		}
+	}
+	// C10: iterators, ListKeys, Fold
+	generators["C10"] = func(c *Case, rng *vrt.Rand, tier string) func(r *Runner, i int) *Op {
+		c.Arm = "seq"
+		c.Cfg = genConfig(rng, rng.Chance(0.3))
+		s := newSwarm(rng, []string{"put", "del", "list", "fold", "iter", "merge"}, 50)
+		nkeys := rng.Range(0, 40)
+		if rng.Chance(0.3) {
+			nkeys = rng.Range(0, 6)
+		}
+		s.Keys = genKeys(rng, max(nkeys, 1))
+		s.ValW = []int{1, 5, 1, 0, 0, 0, 0}
+		s.W["iter"] += 6
+		s.W["put"] += 4
+		s.W["list"] += 1
+		s.W["fold"] += 1
+		if s.W["merge"] > 1 {
+			s.W["merge"] = 1
+		}
+		s.Steps = rng.Range(5, 60)
+		inner := s.genPlain(rng, func() *Config { cfg := c.Cfg; return &cfg })
+		return func(r *Runner, i int) *Op {
+			// preload most of the key set first
+			if i < nkeys && rng.Chance(0.8) {
+				k := s.Keys[i%len(s.Keys)]
+				return &Op{K: "put", Key: k, Val: s.val(rng, r, len(k)), Dt: 1000}
+			}
+			return inner(r, i)
+		}
+	}
+	// C13: sync policy
+	generators["C13"] = func(c *Case, rng *vrt.Rand, tier string) func(r *Runner, i int) *Op {
+		c.Arm = "seq"
+		c.Cfg = genConfig(rng, rng.Chance(0.6))
+		c.Cfg.Sync = byte(rng.Pick([]int{1, 3, 3}))
+		s := newSwarm(rng, []string{"put", "del", "get", "sync", "restart", "batch", "merge"}, 40)
+		s.W["put"] += 5
+		s.W["sync"] += 1
+		s.W["batch"] += 2
+		if s.W["merge"] > 1 {
+			s.W["merge"] = 1
+		}
+		return s.genPlain(rng, func() *Config {
+			cfg := c.Cfg
+			if rng.Chance(0.5) {
+				cfg.Sync = byte(rng.Intn(3))
+				cfg.BPS = bpsVals[rng.Intn(len(bpsVals))]
+			}
+			return &cfg
+		})
+	}
+	// C15: hostile caller
+	generators["C15"] = func(c *Case, rng *vrt.Rand, tier string) func(r *Runner, i int) *Op {
+		c.Arm = "seq"
+		c.Hostile = true
+		c.Cfg = genConfig(rng, rng.Chance(0.5))
+		s := newSwarm(rng, []string{"put", "del", "get", "list", "fold", "batch", "restart", "merge"}, 50)
+		s.W["put"] += 5
+		s.W["get"] += 3
+		s.W["batch"] += 4
+		if s.W["restart"] > 1 {
+			s.W["restart"] = 1
+		}
+		if s.W["merge"] > 1 {
+			s.W["merge"] = 1
+		}
+		s.ValW[5] = 0
+		return s.genPlain(rng, func() *Config { cfg := c.Cfg; return &cfg })
+	}
+	// C17: Stat / accounting / size limit
+	generators["C17"] = func(c *Case, rng *vrt.Rand, tier string) func(r *Runner, i int) *Op {
+		c.Arm = "seq"
+		c.Cfg = genConfig(rng, rng.Chance(0.7))
+		s := newSwarm(rng, []string{"put", "del", "batch", "merge", "restart", "sync"}, 40)
+		s.W["put"] += 5
+		s.W["del"] += 2
+		s.W["batch"] += 4
+		s.W["merge"] += 1
+		s.W["restart"] += 1
+		return s.genPlain(rng, restartCfgFn(c, rng, true, 0.5))
+	}
+	// C18: hint fidelity
+	generators["C18"] = func(c *Case, rng *vrt.Rand, tier string) func(r *Runner, i int) *Op {
+		c.Arm = "seq"
+		c.Cfg = genConfig(rng, rng.Chance(0.8))
+		s := newSwarm(rng, []string{"put", "del", "batch", "merge", "restart"}, 40)
+		s.Keys = genKeys(rng, rng.Range(1, 12))
+		s.W["put"] += 6
+		s.W["merge"] += 3
+		s.ValW[5] = min(s.ValW[5], 1)
+		return s.genPlain(rng, func() *Config { cfg := c.Cfg; return &cfg })
+	}
+	// C20: backup (single client arm)
+	generators["C20"] = func(c *Case, rng *vrt.Rand, tier string) func(r *Runner, i int) *Op {
+		c.Arm = "seq"
+		c.Cfg = genConfig(rng, rng.Chance(0.6))
+		if rng.Chance(0.6) {
+			c.Cfg.IO = 1
+		}
+		s := newSwarm(rng, []string{"put", "del", "get", "batch", "merge", "restart", "backup"}, 40)
+		s.W["put"] += 5
+		s.W["backup"] += 3
+		inner := s.genPlain(rng, func() *Config { cfg := c.Cfg; return &cfg })
+		afterBackup := false
+		return func(r *Runner, i int) *Op {
+			op := inner(r, i)
+			if op == nil {
+				return nil
+			}
+			if afterBackup && rng.Chance(0.6) {
+				// a large Put right after a backup (the mmap path must extend the shrunk file again)
+				k := s.key(rng)
+				op = &Op{K: "put", Key: k, Val: &Val{Len: rng.Range(2000, 70000), Tag: s.nextTag()}, Dt: 1000}
+			}
+			afterBackup = op.K == "backup"
+			return op
+		}
+	}
+	// C06: merge (single client arm)
+	generators["C06"] = func(c *Case, rng *vrt.Rand, tier string) func(r *Runner, i int) *Op {
+		c.Arm = "seq"
+		c.Cfg = genConfig(rng, rng.Chance(0.8))
+		s := newSwarm(rng, []string{"put", "del", "batch", "merge", "restart", "get"}, 45)
+		s.W["put"] += 6
+		s.W["del"] += 1
+		s.W["merge"] += 3
+		s.W["restart"] += 3
+		inner := s.genPlain(rng, restartCfgFn(c, rng, true, 0.5))
+		lastMerge := false
+		return func(r *Runner, i int) *Op {
+			op := inner(r, i)
+			if op == nil {
+				return nil
+			}
+			if lastMerge && rng.Chance(0.5) {
+				op = &Op{K: "restart", Cfg: restartCfgFn(c, rng, true, 0.5)(), Dt: s.dt(rng)}
+			}
+			lastMerge = op.K == "merge"
+			return op
+		}
+	}
+}
